@@ -39,7 +39,7 @@ BUDGET = {"quick": {"examples": 6400}, "thorough": {"examples": 160000, "deadlin
 CFG = gen.cfg(max_syms=12, p_choice=14, p_select=20, p_imply=16, p_set=16, p_wset=16, p_multi_def=12)
 KINDS = [(55, "set"), (8, "unset"), (8, "reset"), (3, "reset_menu"), (10, "load_hand")]
 EDIT_KINDS = [(70, "set"), (15, "unset"), (15, "reset")]
-MUTATIONS = ("none", "none", "default-value", "default-value", "default-value", "default-cond", "range", "add-depends", "add-option", "remove-option", "conditional-prompt", "remove-member", "add-member")
+MUTATIONS = ("none", "none", "default-value", "default-value", "default-value", "flip-gate", "flip-gate", "default-cond", "range", "add-depends", "add-option", "remove-option", "conditional-prompt", "remove-member", "add-member")
 
 
 @st.composite
@@ -173,6 +173,29 @@ def mutate(tree, mutation, near=None):
             pool = [x for x in lits[e["type"]] if ["lit", e["type"], x] != dv["val"]]
             dv["val"] = ["lit", e["type"], pool[c % len(pool)]]
         return t2, f"default-value:{e['name']}"
+    if kind == "flip-gate":
+        # two related defaults change between the versions: a prompted bool G on which a prompted option D directly depends
+        # gets the opposite default, and D gets another default as well (whatever the order of their definitions)
+        by_name = {e["name"]: e for e in plain}
+        pairs = []
+        for dd in plain:
+            if not dd.get("prompt") or not dd["defaults"]:
+                continue
+            for x in dd["depends"]:
+                if x[0] == "sym" and x[1] in by_name and by_name[x[1]]["type"] == "bool" and by_name[x[1]].get("prompt") and x[1] != dd["name"]:
+                    pairs.append((by_name[x[1]], dd))
+        if not pairs:
+            return None, "no-gate-pair"
+        g_, d_ = pairs[a % len(pairs)]
+        cur = g_["defaults"][0]["val"] if g_["defaults"] and g_["defaults"][0]["cond"] is None else ["n"]
+        g_["defaults"] = [{"val": ["n"] if cur == ["y"] else ["y"], "cond": None}]
+        dv = d_["defaults"][0]
+        if d_["type"] == "bool":
+            d_["defaults"].insert(0, {"val": ["n"] if dv["val"] == ["y"] else ["y"], "cond": None})
+        else:
+            pool = [x for x in lits[d_["type"]] if ["lit", d_["type"], x] != dv["val"]]
+            d_["defaults"].insert(0, {"val": ["lit", d_["type"], pool[c % len(pool)]], "cond": None})
+        return t2, f"flip-gate:{g_['name']}+{d_['name']}"
     if kind == "default-cond":
         if not plain:
             return None, "no-config"
